@@ -51,6 +51,12 @@ CFG = {
         "Swat4.C17.toHTML_inert",
         "Swat4.C17.clean_loop_terminates",
         "Swat4.C17.clean_no_codes",
+        "Swat4.C17.view_body",
+        "Swat4.C17.add_body",
+        "Swat4.C17.view_body_inert",
+        "Swat4.C17.knownOf_spec",
+        "Swat4.C17.knownOf_go",
+        "Swat4.C17.knownOf_bits",
         "Swat4.C17.facts_ok",
     ],
     "shards": (1, 4),
@@ -93,7 +99,13 @@ CFG = {
                 "has no store effect, every effect names the requested address; add_body_table / view_string_table — the same from any "
                 "decoded JSON body / any address string; never_private_stored — an excluded address gets 400 and no store or queue change; "
                 "toHTML_inert — for every hostname the reference tokenizer accepts ToHTML's output (only colour spans, the five entities, "
-                "no raw < > & quotes); clean_no_codes — Clean's output contains no style code, and its loop terminates. The model is tied "
+                "no raw < > & quotes); clean_no_codes — Clean's output contains no style code, and its loop terminates; view_body / add_body — "
+                "on every route of the model a 200 comes only from a stored record with the details bit, its hostname_html / hostname_plain "
+                "are ToHTML / Clean of the hostname stored in that record and nothing is stored or queued, and every other status carries "
+                "neither member (of model.Server only these two members are modelled and compared; the other 25 and players/objectives are "
+                "not); view_body_inert — hence every 200 has inert hostname_html and code-free hostname_plain; knownOf_spec / knownOf_go / "
+                "knownOf_bits — the columns of the reference table are exactly the bit tests 8, 128-or-16, 256 of the status word, in the "
+                "form server.go computes them and bit by bit, in the order addserver.go / getserver.go test them. The model is tied "
                 "to the code by differential runs through the real router and by facts_ok (binding tags, status bits and the regular "
                 "expressions' source text are read from the source on every run).",
         "level_note": "Trusted: Lean kernel; axioms propext, Quot.sound, Classical.choice; the hand-written scanners as the meaning of Go's "
